@@ -648,6 +648,16 @@ class Performance(object):
             for program in ppart.programs:
                 program["track"] = track_map[(i, program.get("track", -1))]
 
+            # key/time signatures and other meta events stay on the track of the
+            # notes, controls and programs of their part that they were on (in a
+            # part loaded from a MIDI file all of them come from one file track)
+            for meta in (
+                ppart.key_signatures + ppart.time_signatures + ppart.meta_other
+            ):
+                track_id = (i, meta.get("track", -1))
+                if track_id in track_map:
+                    meta["track"] = track_map[track_id]
+
     def __getitem__(self, index: int) -> PerformedPart:
         """Get `Part in the score by index"""
         return self.performedparts[index]
